@@ -368,4 +368,35 @@ theorem affMesh_ratProd (lam : Rat) (t : List Rat) (m : Mesh) (h2 : m.ndim = 2) 
     affMesh_cellAt lam t m 1 (Or.inl (by omega))]
   ring
 
+theorem charge_of_tcd (sq : Rat → Rat) (pi : Rat) (Om : Tri → Rat) (f q : Fld) (m : Method) (a : Bool)
+    (h : tcd sq pi Om f m = .ok q) : charge sq pi Om f m a = .ok (integrateAll a q) := by
+  obtain ⟨h3, h2, _, _⟩ := tcd_ok sq pi Om f q m h
+  unfold charge
+  rw [if_neg (by simp [h3]), if_neg (by simp [h2]), h]
+
+theorem charge_ok_inv (sq : Rat → Rat) (pi : Rat) (Om : Tri → Rat) (f : Fld) (m : Method) (a : Bool) (c : Rat)
+    (h : charge sq pi Om f m a = .ok c) : ∃ q, tcd sq pi Om f m = .ok q ∧ c = integrateAll a q := by
+  unfold charge at h
+  by_cases h3 : f.nvdim ≠ 3
+  · rw [if_pos h3] at h; cases h
+  · rw [if_neg h3] at h
+    by_cases h2 : f.mesh.ndim ≠ 2
+    · rw [if_pos h2] at h; cases h
+    · rw [if_neg h2] at h
+      cases hq : tcd sq pi Om f m with
+      | error e => rw [hq] at h; cases h
+      | ok q =>
+        rw [hq] at h
+        injection h with h
+        exact ⟨q, rfl, h.symm⟩
+
+theorem charge_err_of_tcd (sq : Rat → Rat) (pi : Rat) (Om : Tri → Rat) (f : Fld) (m : Method) (a : Bool) (e : Err)
+    (h : tcd sq pi Om f m = .error e) : ∃ e', charge sq pi Om f m a = .error e' := by
+  unfold charge
+  split
+  · exact ⟨_, rfl⟩
+  · split
+    · exact ⟨_, rfl⟩
+    · rw [h]; exact ⟨_, rfl⟩
+
 end DFV.C19
